@@ -238,6 +238,9 @@ pub fn build_table_from_data(
             max_symbol = idx;
         }
     }
+    // Always describe at least two symbols: a table for a single symbol with probability
+    // 2^acc_log cannot be balanced by the zero-bit avoidance below (there is no second slot)
+    let max_symbol = max_symbol.max(1);
     build_table_from_counts(&counts[..=max_symbol], max_log, avoid_0_numbit)
 }
 
